@@ -18,14 +18,19 @@ ALIASES = [('', None), ('{w}al', 'al'), ('{w}AS{w}al', 'al'), ('{w}as{w}"al"', '
            ('{w}{n}', '{n}'), ('{w}AS{w}{n}', '{n}'),
            # a quoted alias glued to the keyword
            ('{w}as"al"', 'al'), ('{w}AS`al`', 'al')]
+# ... and glued to the name as well (possible only behind a closing quote): no whitespace inside the Identifier
+ALIASES_GLUED = [('as"al"', 'al'), ('AS`al`', 'al'), ('as{w}al', 'al')]
 WS = [' ', '  ', '\n', '\t']
-NEIGH = [('a', 'b'), ('f(1)', 'max(b) m'), ('1', "'s'")]
+NEIGH = [('a', 'b'), ('f(1)', 'max(b) m'), ('1', "'s'"), ('k1{w}kk', 'b{w}bb')]
 # context: template with {X}; {A}/{B} neighbours; {w} whitespace
 CONTEXTS = [
     ('select-only', 'select{w}{X}{w}from{w}t'),
     ('select-first', 'select{w}{X},{w}{B}{w}from{w}t'),
     ('select-middle', 'select{w}{A},{w}{X},{w}{B}{w}from{w}t'),
     ('select-last', 'select{w}{A},{w}{X}{w}from{w}t'),
+    ('select-last-tight', 'select{w}{A},{X}{w}from{w}t'),
+    ('select-middle-tight', 'select{w}{A},{X},{B}{w}from{w}t'),
+    ('from-list-tight', 'select{w}1{w}from{w}t1{w}x,{X}'),
     ('from', 'select{w}1{w}from{w}{X}'),
     ('from-list', 'select{w}1{w}from{w}t1,{w}{X}'),
     ('from-list-first', 'select{w}1{w}from{w}{X},{w}t2{w}where{w}1{w}={w}1'),
@@ -68,7 +73,7 @@ def build(name, ql, qr, qual, alias, w, ctx, neigh):
         atext = atext.replace('{n}', ql + name + qr)
         exp_alias = name
     item = ref + atext.format(w=w)
-    text = ctx[1].format(X=item, A=neigh[0], B=neigh[1], w=w)
+    text = ctx[1].format(X=item, A=neigh[0].format(w=w), B=neigh[1].format(w=w), w=w)
     return text, item, {'real': name, 'parent': exp_parent, 'alias': exp_alias,
                         'name': exp_alias or name, 'has_alias': exp_alias is not None}
 
@@ -104,7 +109,8 @@ def run(tier, seed):
         import sqlparse
         acc = core.Acc(bits=24)
         for name, ql, qr in chunk:
-            for qual, alias, w, ctx, neigh in itertools.product(QUALS, ALIASES, WS, CONTEXTS, NEIGH):
+            for qual, alias, w, ctx, neigh in itertools.product(QUALS, ALIASES + (ALIASES_GLUED if qr else []), WS,
+                                                                 CONTEXTS, NEIGH):
                 if '{A}' not in ctx[1] and '{B}' not in ctx[1] and neigh is not NEIGH[0]:
                     continue
                 text, item, exp = build(name, ql, qr, qual, alias, w, ctx, neigh)
